@@ -344,7 +344,8 @@ def r2(ctx):
         # a branch on which the merged sequence has fewer than two elements may skip the (then empty) merge loop
         seqtxt = u(ml.iter.value) if isinstance(ml.iter, ast.Subscript) else u(ml.iter)
         short = util.edges_implying_short(cfg, seqtxt, 1)
-        probs = util.check_loop_conservation(cfg, rl[0], lambda n: n == mnode or n in short)
+        short_e = util.edges_implying_short(cfg, seqtxt, 1, as_edges=True)
+        probs = util.check_loop_conservation(cfg, rl[0], lambda n: n == mnode or n in short, sink_edges=short_e)
         ctx.ob(fc.qual, "every-read-contributes-its-links", not probs, fc.loc(rl[0]), "every read of the set reaches the merge loop (no read is skipped, the read loop has no early exit)" if not probs else "a read can be skipped before its positions are merged: variants it links end up in different phase sets", cfg.describe_path(probs[0][1]) if probs else None)
     mbm = [c for c in merges if "master_block" in u(c) or mb_p in u(c)]
     ok = (None if not mbm else (len(mbm) == 1 and ("None is %s" % mb_p, False) in guard_atoms(cfg, cfg.node_containing(mbm[0]))))
